@@ -380,7 +380,9 @@ theorem exec_th_other (s : Sys) (t t2 : Nat) (op : Op) (hne : t2 ≠ t) : (exec 
     simp only [exec]
     split
     · rfl
-    · exact Sys.newSpan_th_other _ _ _ _ _ _ _ hne
+    · split
+      · rfl
+      · exact Sys.newSpan_th_other _ _ _ _ _ _ _ hne
   | childLocal v n =>
     simp only [exec]
     split
